@@ -33,7 +33,7 @@ func main() {
 	switch *prop {
 	case "C04":
 		run = ev.Begin("C04", *tier, "exploration")
-		enumx.Run(run, "C04", []string{"c04-types", "c04-ms", "c04-product", "c04-errors", "c04-bodybytes", "c04-long", "c04-runes", "c04-literals", "c04-collisions", "c04-now", "c04-selfsimilar"}, *tier, 16, true)
+		enumx.Run(run, "C04", []string{"c04-types", "c04-ms", "c04-product", "c04-errors", "c04-bodybytes", "c04-long", "c04-runes", "c04-literals", "c04-collisions", "c04-now", "c04-selfsimilar", "c04-related", "c04-samebuffer"}, *tier, 16, true)
 		run.Set("rule", "lines 'type=T msg=audit(S.mmm:N): body' written by an independent formatter: all 65536 types x 3 spellings (name, lower case, UNKNOWN[n]); all 1000 millisecond strings; full product of boundary types x seconds x ms x sequences x hostile bodies; error side: every proper prefix and every single-byte substitution of boundary headers. non-trivial = accepted line whose every header field and ToMapStr key matched the independent expectation, or must-fail line that was rejected")
 	case "C05":
 		run = ev.Begin("C05", *tier, "exploration")
